@@ -81,7 +81,7 @@ class VmTools:
         try:
             with open(out, "w") as o:
                 p = subprocess.run(cmd, stdout=o, stderr=subprocess.PIPE, stdin=subprocess.DEVNULL,
-                                   timeout=timeout, env=ENV, cwd=cwd)
+                                   timeout=timeout, env=getattr(self, "env", None) or ENV, cwd=cwd)
             return out, p.returncode, p.stderr.decode(errors="replace")[-2000:]
         except subprocess.TimeoutExpired:
             return out, -9, "timeout"
